@@ -392,7 +392,8 @@ corollary(
            ("cb", FU + "chi_squared_with_mask_from", {"chi_squared_map": "mb", "mask": "mask"})],
     ensures=[
         # the maps themselves are identical everywhere (0 at masked entries, the same value at unmasked ones)
-        "forall(0, H, lambda i: forall(0, W, lambda j: r[i, j] == rb[i, j] and m[i, j] == mb[i, j]))",
+        "forall(0, H, lambda i: forall(0, W, lambda j: r[i, j] == rb[i, j]))",
+        "forall(0, H, lambda i: forall(0, W, lambda j: m[i, j] == mb[i, j]))",
         "c08_same2(" + _m2("m[i, j]") + ", " + _m2("mb[i, j]") + ")",
         "c == cb",
     ],
